@@ -142,8 +142,8 @@ class _Norm(ast.NodeTransformer):
 
 
 def canon(e: ast.AST) -> str:
-    e = _Norm().visit(ast.parse(ast.unparse(e), mode="eval").body if False else e)
-    return ast.dump(e)
+    import copy
+    return ast.dump(_Norm().visit(copy.deepcopy(e)))
 
 
 def parse_expr(src: str) -> Optional[ast.expr]:
@@ -754,6 +754,25 @@ def replay(ctx: Ctx, path: str) -> int:
         ok, why = same_expr(shown, want) if complete else (shown.endswith("..."), "cut without marker")
         print(f"replay: input {w['input']!r} shown {shown!r} ->", "holds now" if ok else f"still violated ({why})")
         bad = not ok
+    elif w.get("invariant") == "LiteralValue":
+        value = ast.literal_eval(w["input"])
+        shown, complete = shown_pyval(ast.Constant(value), 0, 0, w["linebreakok"])
+        got = literal_value(shown)
+        bad = not (complete and type(got) is type(value) and got == value)
+        print(f"replay: value {w['input']} shown {shown!r} ->", "still violated" if bad else "holds now")
+    elif w.get("invariant") == "Marked":
+        src, lbok = w["input"], w["linebreakok"]
+        shown, complete = shown_pyval(ast.parse(src, mode="eval").body, w["linelen"], w["maxlines"], lbok)
+        full = shown_pyval(ast.parse(src, mode="eval").body, 0, 0, lbok)[0]
+        if complete:
+            a, b = parse_expr(shown.replace(chr(8629) + "\n", "")), parse_expr(full)
+            ok = (a is not None and canon(a) == canon(b)) if b is not None else \
+                essence_py(to_symbols(shown, True)) == essence_py(to_symbols(full, True))
+        else:
+            ok = shown.endswith("...")
+        bad = not ok
+        print(f"replay: {src!r} linelen={w['linelen']} maxlines={w['maxlines']} shown {shown!r} is_complete={complete} ->",
+              "still violated" if bad else "holds now")
     if bad:
         print(f"VIOLATION property=C15 replay={path}")
     ctx.cleanup()
